@@ -6,6 +6,7 @@ import (
 	"fmt"
 	"math/rand"
 	"sort"
+	"strings"
 	"sync"
 	"time"
 
@@ -131,12 +132,15 @@ func newC09Exec(c *harness.Case, kind string, keys []string) *c09Exec {
 
 func (e *c09Exec) close() {
 	e.n.Retire()
+	if e.n.RetryQueueLen() > 0 || e.n.Committed() != e.n.Dealt() {
+		return // the retry loop may still touch the engine: leave it open rather than pull it from under the backend
+	}
 	e.eng.Close()
 }
 
 // quiesce waits until the retry queue is empty and every dealt revision has been processed.
 func (e *c09Exec) quiesce() bool {
-	deadline := time.Now().Add(60 * time.Second)
+	deadline := time.Now().Add(15 * time.Second)
 	for {
 		q1 := e.n.RetryQueueLen()
 		committed, dealt := e.n.Committed(), e.n.Dealt()
@@ -284,7 +288,7 @@ func (e *c09Exec) run(steps []c09Step) {
 			// a definite error: the write must not have landed (checked against the boundary log below)
 			continue
 		}
-		if !n.WaitCommitted(out.Rev, 60*time.Second) {
+		if !n.WaitCommitted(out.Rev, 8*time.Second) {
 			// (2) later requests keep flowing
 			if faultSeen {
 				missing, _, _, _ := n.Conservation()
@@ -495,6 +499,15 @@ func runC09(c *harness.Case) {
 			e.close()
 			if c.R.Verdict == "inconclusive" {
 				return
+			}
+			stuck := false
+			for _, v := range c.R.Violations {
+				if strings.HasPrefix(v.Sig, "C09 later-requests-stuck") {
+					stuck = true
+				}
+			}
+			if stuck {
+				return // every further execution would wait for its watchdog too; the verdict is in
 			}
 		}
 	}
